@@ -76,6 +76,11 @@ def producers(t: str) -> List[tuple]:
                 out.append(("call", name, sig))
     if t == B:
         out += [("cmp", I), ("cmp", S), ("bool",), ("in", I)]
+    # arithmetic (OData 5.1.1.2): numeric op numeric; date-time +/- duration; date-time - date-time = duration
+    for op, res, l, r in (("Add", I, I, I), ("Mult", F, F, F), ("Mod", I, I, I), ("Sub", DU, D, D), ("Sub", DU, DT, DT),
+                          ("Add", DT, DT, DU), ("Sub", D, D, DU), ("Add", DU, DU, DU), ("Sub", F, F, I)):
+        if res == t:
+            out.append(("arith", op, l, r))
     return out
 
 
@@ -90,6 +95,8 @@ def gen_typed(t: str, depth: int, picks: list, sval: str) -> Any:
     if p[0] == "call":
         ns, _, nm = p[1].rpartition(".")
         return ast.Call(ast.Identifier(nm, (ns,) if ns else ()), [gen_typed(a, depth - 1, picks, sval) for a in p[2]])
+    if p[0] == "arith":
+        return ast.BinOp(getattr(ast, p[1])(), gen_typed(p[2], depth - 1, picks, sval), gen_typed(p[3], depth - 1, picks, sval))
     if p[0] == "cmp":
         return ast.Compare(ast.LtE(), gen_typed(p[1], depth - 1, picks, sval), gen_typed(p[1], depth - 1, picks, sval))
     if p[0] == "in":
